@@ -284,6 +284,13 @@ static cat_return_state ev_read(const struct cat_command *cmd, uint8_t *data, si
         delivered[(cmd - cmds) - 1]++;
         return CAT_RETURN_STATE_DATA_OK;
 }
+static cat_return_state ev_test(const struct cat_command *cmd, uint8_t *data, size_t *data_size, const size_t max)
+{
+        (void)data; (void)data_size; (void)max;
+        inside_point(5);
+        delivered[(cmd - cmds) - 1]++;
+        return CAT_RETURN_STATE_DATA_OK;
+}
 static cat_return_state hold_run(const struct cat_command *cmd) { (void)cmd; inside_point(3); return CAT_RETURN_STATE_HOLD; }
 static cat_return_state plain_run(const struct cat_command *cmd) { (void)cmd; inside_point(4); return CAT_RETURN_STATE_OK; }
 
@@ -292,7 +299,7 @@ static struct cat_command_group grp; static struct cat_command_group *grps[1];
 static struct cat_descriptor desc;
 
 /* ---- thread bodies ---- */
-static int prod_ops[MAXT][4];     /* 0 trigger, 1 is_full, 2 is_busy, 3 is_hold, 4 hold_exit */
+static int prod_ops[MAXT][4];     /* 0 trigger_read, 1 is_full, 2 is_busy, 3 is_hold, 4 hold_exit, 5 trigger_test, 6 trigger_event(READ) */
 
 static void *service_body(void *arg)
 {
@@ -333,8 +340,10 @@ static void *producer_body(void *arg)
         for (int k = 0; k < ops_per_prod && !aborted; k++) {
                 cat_status s;
                 switch (prod_ops[id][k]) {
-                case 0:
-                        s = cat_trigger_unsolicited_read(obj, &cmds[1 + id]);
+                case 0: case 5: case 6:
+                        s = prod_ops[id][k] == 0 ? cat_trigger_unsolicited_read(obj, &cmds[1 + id])
+                          : prod_ops[id][k] == 5 ? cat_trigger_unsolicited_test(obj, &cmds[1 + id])
+                                                 : cat_trigger_unsolicited_event(obj, &cmds[1 + id], CAT_CMD_TYPE_READ);
                         if (s == CAT_STATUS_OK) accepted[id]++;
                         else if (s == CAT_STATUS_ERROR_BUFFER_FULL) full[id]++;
                         else violation("C17: trigger returned %d", s);
@@ -377,7 +386,7 @@ static void run_once(void)
                 static const char *nm[] = {"", "+u1", "+u2", "+u3", "+u4"};
                 evars[p] = (struct cat_variable){.type = CAT_VAR_UINT_DEC, .data = &vars[p], .data_size = 4, .access = CAT_VAR_ACCESS_READ_ONLY};
                 vars[p] = (uint32_t)(10 + p);
-                cmds[1 + p] = (struct cat_command){.name = nm[p], .read = ev_read, .var = &evars[p], .var_num = 1};
+                cmds[1 + p] = (struct cat_command){.name = nm[p], .read = ev_read, .test = ev_test, .var = &evars[p], .var_num = 1};
         }
         grp = (struct cat_command_group){.cmd = cmds, .cmd_num = 2};       /* event commands need not be registered */
         grps[0] = &grp;
@@ -518,10 +527,10 @@ int main(int argc, char **argv)
         if (n_prod < 1 || n_prod > 3 || ops_per_prod < 1 || ops_per_prod > 4) fatal("bad configuration");
         /* operation menus: opset selects which mix the producers run */
         static const int SETS[4][3][4] = {
-                {{0, 4, 0, 1}, {0, 1, 0, 2}, {0, 3, 4, 0}},      /* trigger+release | trigger+full? | trigger+is_hold */
-                {{4, 0, 2, 0}, {0, 0, 1, 3}, {2, 0, 0, 4}},
-                {{0, 0, 0, 0}, {0, 0, 0, 0}, {0, 0, 0, 0}},      /* triggers only: queue pressure */
-                {{3, 4, 1, 0}, {2, 0, 4, 1}, {1, 2, 3, 4}}};
+                {{0, 4, 5, 1}, {6, 1, 0, 2}, {5, 3, 4, 0}},      /* all three trigger entry points, release, queries */
+                {{4, 5, 2, 0}, {0, 6, 1, 3}, {2, 0, 5, 4}},
+                {{0, 5, 6, 0}, {5, 0, 0, 6}, {6, 6, 5, 5}},      /* triggers only: queue pressure */
+                {{3, 4, 1, 0}, {2, 5, 4, 1}, {1, 2, 3, 4}}};
         for (int p = 1; p <= 3; p++) for (int k = 0; k < 4; k++) prod_ops[p][k] = SETS[opset & 3][p - 1][k];
         struct timespec ts; clock_gettime(CLOCK_MONOTONIC, &ts);
         t_start = ts.tv_sec + ts.tv_nsec * 1e-9;
